@@ -24,6 +24,7 @@ pub fn run(cfg: &Config) -> i32 {
 	add(&mut total, pf::fam_sigma(cfg, flags, "sigma-t-token-sequences", &crate::gen::SIGMA_T, if thorough { 6 } else { 5 - small }));
 	add(&mut total, pf::fam_surrogates(cfg, flags, 3));
 	add(&mut total, pf::fam_large(cfg, flags, if thorough { 64 } else { 16 }, if thorough { 100_000 } else { 20_000 }));
+	add(&mut total, pf::fam_block_boundaries(cfg, flags));
 	conclude(
 		cfg,
 		EvidenceMeta {
